@@ -1,7 +1,7 @@
 (* Correspondence for C17: the converters' results versus the model (Model/Combine.v) and the union spec
    (Spec/Combine.v).  The harness parses every per-agent file with the implementation and hands the
    vocabulary dumps over; see harness/ops_c17.py for the dump format. *)
-From Coq Require Import List Ascii String Bool.
+From Coq Require Import List Ascii String Bool NArith.
 From Verif Require Import Base.Result Base.Str Model.Combine Spec.Combine Corr.Common.
 Import ListNotations.
 Open Scope string_scope.
@@ -19,9 +19,11 @@ Record dcase := DC {
   dc_fresh_after : list string;      (* names in Domain().types after the call *)
   dc_default_after : list string;    (* names in the module-level DEFAULT_TYPES after the call *)
   dc_others : list alist;            (* unrelated domains (typed, untyped, one sharing type names with the files):
-                                        name -> digest of the object parsed BEFORE the call, taken before the call
-                                        (head of the list), after locate_domains and at the end of the job; and
-                                        name -> digest of the same text PARSED AGAIN at those two moments *)
+                                        name -> digest (dump + subtype relation).  Head of the list: the reference,
+                                        with the subtype relation read off the domain's own parent pointers; then
+                                        the digests with the relation as is_sub_type answers, of the object parsed
+                                        BEFORE the call (taken before the call, after locate_domains, at the end of
+                                        the job) and of the same text PARSED AGAIN at the last two moments *)
   dc_rt : obs domainv;               (* the combination exported by DomainExporter and parsed again (Raised: the
                                         export or the parse raised) *)
   dc_alt : option (obs domainv * obs domainv);
@@ -233,13 +235,13 @@ Definition run (cases : list case) : string := summary judge cases.
    The per-agent dumps of a directory are the same for every order; they cross once, each run names its order by
    positions.  [expand] rebuilds the cases above, which are judged one by one. *)
 Record drun := DR {
-  dr_order : list nat; dr_dummy : bool; dr_obs : obs domainv; dr_fresh_after : list string;
+  dr_order : list N; dr_dummy : bool; dr_obs : obs domainv; dr_fresh_after : list string;
   dr_default_after : list string; dr_others : list alist; dr_rt : obs domainv;
   dr_alt : option (obs domainv * obs domainv)
 }.
 
 Record prun := PR {
-  pr_order : list nat; pr_obs : obs problemv; pr_rt : obs problemv; pr_fresh_after : list string;
+  pr_order : list N; pr_obs : obs problemv; pr_rt : obs problemv; pr_fresh_after : list string;
   pr_others : list alist
 }.
 
@@ -247,8 +249,9 @@ Inductive group :=
   | GD (defaults : alist) (files : list (obs domainv)) (expect : option domainv) (runs : list drun)
   | GP (files : list (obs problemv)) (expect : option problemv) (runs : list prun).
 
-Definition pick {A} (files : list (obs A)) (order : list nat) : list (obs A) :=
-  map (fun i => nth i files Raised) order.
+(* positions are binary numbers (N): a unary nat literal costs as many constructors as its value *)
+Definition pick {A} (files : list (obs A)) (order : list N) : list (obs A) :=
+  map (fun i => nth (N.to_nat i) files Raised) order.
 
 Definition expand (g : group) : list case :=
   match g with
@@ -266,22 +269,22 @@ Definition run_groups (gs : list group) : string := summary judge (flat_map expa
    of a directory.  A group therefore crosses as  let t := [texts] in GD ...  with every dump written through the
    decoders below: a text is its position in [t]; a dict is the list  k0 v0 k1 v1 ...  of positions.  The decoding
    is part of the evaluated term (nothing is compared before it is decoded). *)
-Definition tget (t : list string) (i : nat) : string := nth i t "".
+Definition tget (t : list string) (i : N) : string := nth (N.to_nat i) t "".
 
-Fixpoint dec_pairs (t : list string) (l : list nat) : alist :=
+Fixpoint dec_pairs (t : list string) (l : list N) : alist :=
   match l with
   | a :: b :: r => (tget t a, tget t b) :: dec_pairs t r
   | _ => []
   end.
 
-Definition ES (t : list string) (l : list nat) : list string := map (tget t) l.
-Definition EA (t : list string) (l : list nat) : alist := dec_pairs t l.
+Definition ES (t : list string) (l : list N) : list string := map (tget t) l.
+Definition EA (t : list string) (l : list N) : alist := dec_pairs t l.
 
-Definition ED (t : list string) (name : option nat) (reqs types consts preds funcs acts : list nat) : domainv :=
+Definition ED (t : list string) (name : option N) (reqs types consts preds funcs acts : list N) : domainv :=
   D (option_map (tget t) name) (ES t reqs) (EA t types) (EA t consts) (EA t preds) (EA t funcs) (EA t acts).
 
-Definition EP (t : list string) (name : nat) (objs : list nat) (facts : list (nat * list nat))
-  (fluents goals ngoals : list nat) : problemv :=
+Definition EP (t : list string) (name : N) (objs : list N) (facts : list (N * list N))
+  (fluents goals ngoals : list N) : problemv :=
   P (tget t name) (EA t objs) (map (fun kf => (tget t (fst kf), ES t (snd kf))) facts) (EA t fluents)
     (ES t goals) (ES t ngoals).
 
